@@ -256,7 +256,7 @@ def run_property(prop, tier="quick", seed=0, record_expected=False, only=None, j
         outs = _run_tasks_guarded(args, min(jobs, len(args)), tier)
         # a solver timeout is a statement about the machine, not about the code: tasks with timed-out obligations are run again, few at a
         # time and with a larger budget, before anything is reported
-        for factor, width in ((4, 4), (12, 2)):
+        for factor, width in ((4, 4),):
             again = [k for k, o in enumerate(outs) if any(r["status"] == "unknown" and "timeout" in str(r.get("detail", "")).lower() for r in o["results"])]
             if not again or os.environ.get("PYVC_TIMEOUT_FACTOR"):
                 break
@@ -264,7 +264,7 @@ def run_property(prop, tier="quick", seed=0, record_expected=False, only=None, j
                 break       # something is refuted already: the verdict will not be "held", more solver time cannot change that
             os.environ["PYVC_TIMEOUT_FACTOR"] = str(factor)
             try:
-                redo = _run_tasks_guarded([args[k] for k in again], min(width, len(again)), "thorough")
+                redo = _run_tasks_guarded([args[k] for k in again], min(width, len(again)), tier)
             finally:
                 os.environ.pop("PYVC_TIMEOUT_FACTOR", None)
             for k, o in zip(again, redo):
